@@ -398,6 +398,69 @@ def w_dups(job):
 
 
 
+# ------------------------------------------------------------------ an imported module whose INTERFACE changes between compilations
+RI_LIBS = [
+    "function sc(float x) -> float { return x + 0.5; }\n",
+    "function sc(float x) -> float { return x + 0.5; }\nfunction sc(int x) -> int { return x * 2; }\n",
+    "function sc(int x) -> int { return x * 3; }\nfunction extra(int x) -> int { return x - 1; }\n",
+    "struct SV { int k; }\nfunction sc(int x) -> float { SV t; t.k = x; return t.k * 0.25; }\n",
+]
+RI_APP = "export function main(int a) -> float { float r = sc(a); return r + 100.0; }\n"
+
+
+def w_reinterface(job):
+    """One process, one directory: lib is compiled and stored, app (import "lib") is compiled against it, stored, loaded, linked
+    and run; then lib is compiled and stored AGAIN with another interface (every sequence of versions in the job) and app is
+    compiled again.  After every step the linked program has to compute what lib-version + app compute as ONE module."""
+    from nsl import LinearIR
+    seq = job
+    fails, counts = [], {}
+    stats = {"link_histories": 0, "linker_states": 0, "AddModule_calls": 0, "nontrivial": 0}
+    tmp = tempfile.mkdtemp(prefix="nslmc-c16-")
+    cwd = os.getcwd()
+    os.chdir(tmp)
+    try:
+        for step, v in enumerate(seq):
+            stats["link_histories"] += 1
+            stats["nontrivial"] += 1
+            stats["AddModule_calls"] += 1
+            stats["linker_states"] += 2
+            one = compile_src(RI_LIBS[v] + RI_APP)
+            want = [vm_outcome(link(one.module), "main", {"a": a}, {}) for a in (3, 8)] if one.ok else None
+            lib = compile_src(RI_LIBS[v])
+            got = None
+            if lib.ok:
+                with open("lib.nslir", "wb") as f:
+                    pickle.dump(lib.module, f)
+                app = compile_src('import "lib";\n' + RI_APP)
+                if app.ok:
+                    with open("app.nslir", "wb") as f:
+                        pickle.dump(app.module, f)
+                    try:
+                        with pool.quiet():
+                            lk = LinearIR.Linker()
+                            lk.AddModule(LinearIR.FilesystemModuleLoader().Load("app"))
+                            program = lk.Link()
+                        got = [vm_outcome(program, "main", {"a": a}, {}) for a in (3, 8)]
+                    except BaseException as e:
+                        got = f"link fails: {type(e).__name__}: {e}"
+                else:
+                    got = "importer not compiled: " + app.cls() + " " + (app.msg or "")
+            else:
+                got = "lib not compiled: " + lib.cls()
+            same = want is not None and isinstance(got, list) and all(g[0] == w[0] and (g[0] != "ok" or values_equal(g[1], w[1])) for g, w in zip(got, want))
+            if not same:
+                key = f"C16|reinterface|differs-from-single-module|step={min(step, 1)};version={v}"
+                counts[key] = counts.get(key, 0) + 1
+                fails.append({"key": key, "part": "reinterface", "versions": list(seq), "sources": {"lib versions in order": [RI_LIBS[x] for x in seq], "app": RI_APP},
+                              "expected": f"as one module: {want}", "observed": str(got)[:300]})
+                break
+    finally:
+        os.chdir(cwd)
+        shutil.rmtree(tmp, ignore_errors=True)
+    return fails, counts, stats
+
+
 def rejob(x):
     """Re-execute one worker job (used by ./check --rejob for history-dependent failures)."""
     def tup(v):
@@ -419,6 +482,10 @@ def run(tier, seed):
         for lo in range(0, n, 2):
             jobs.append((w_partition, (bname, lo, lo + 2, placements, thorough)))
     jobs.append((w_dups, None))
+    for L in (1, 2, 3):
+        for q in itertools.product(range(len(RI_LIBS)), repeat=L):
+            if all(x != y for x, y in zip(q, q[1:])):
+                jobs.append((w_reinterface, q))
     rot = seed % len(jobs) if seed else 0
     jobs = jobs[rot:] + jobs[:rot]
     res = pool.pmap(_dispatch, jobs)
@@ -461,6 +528,12 @@ def run(tier, seed):
 
 
 def replay(rec, verbose=True):
+    if rec.get("part") == "reinterface":
+        fl, _, _ = w_reinterface(tuple(rec["versions"]))
+        bad = any(f["key"] == rec["key"] for f in fl)
+        if verbose:
+            print(rec["sources"], "\nexpected", rec["expected"], "-> reproduced" if bad else "-> not reproduced")
+        return bad
     if rec.get("part") == "dups":
         fl, _, _ = w_dups(None)
         bad = any(f["key"] == rec["key"] for f in fl)
